@@ -475,18 +475,19 @@ def api_calls(ctx):
                 tag = fault if (w == 0 or not isinstance(data, list)) else fault + ":item%d" % w
                 if (fault.startswith(("valid", "wrong-list-length")) or fault in ("wrong-type:numpy",)) and w > 0 and fault != "wrong-type:numpy":
                     continue
-                if tag in seen:
-                    tag += "'"
+                n = 2
+                while tag in seen:
+                    tag = "%s:%d" % (fault, n)
+                    n += 1
                 seen.add(tag)
                 calls.append(Call(cls_site + ".transform", layout, tag, expect, (lambda arg=arg: model.transform(arg)),
                                   "code (transform_faithful %s %s)" % (st, coq_input(arg)),
                                   detail="%s fitted on <%s>; transform(<%s>)" % (name, layout, fault)))
-        if layout != "Dataset":      # Dataset models: inverse_transform of fitted scores fails for another reason (not C17)
-            k = int(model.data["components"].sizes["mode"]) if rot is None else int(model.data["components"].sizes["mode"])
-            for fault, expect, sc in score_mutations(model.scores()):
-                calls.append(Call(cls_site + ".inverse_transform", layout, fault, expect, (lambda sc=sc: model.inverse_transform(sc)),
-                                  "code (inverse_outcome %d %s)" % (k, coq_scores(sc)),
-                                  detail="%s fitted on <%s>; inverse_transform(<%s>)" % (name, layout, fault)))
+        k = int(model.data["components"].sizes["mode"])
+        for fault, expect, sc in score_mutations(model.scores()):
+            calls.append(Call(cls_site + ".inverse_transform", layout, fault, expect, (lambda sc=sc: model.inverse_transform(sc)),
+                              "code (inverse_outcome %d %s)" % (k, coq_scores(sc)),
+                              detail="%s fitted on <%s>; inverse_transform(<%s>)" % (name, layout, fault)))
 
     single("EOF(n_modes=2)", "DataArray", lambda: xe.single.EOF(n_modes=2), X, {}, "EOF")
     single("EOF(n_modes=2, center=False)", "DataArray,center=False", lambda: xe.single.EOF(n_modes=2, center=False), X, dict(center=False), "EOF")
@@ -498,6 +499,18 @@ def api_calls(ctx):
     single("EOFRotator(n_modes=2) on EOF(n_modes=3)", "DataArray", lambda: xe.single.EOF(n_modes=3), X, dict(n_modes=3), "EOFRotator",
            rot=lambda: xe.single.EOFRotator(n_modes=2, max_iter=50))
 
+    # thorough tier: the same mutations over other shapes, names and coordinate values
+    for vi in range(ctx.n(0, 4)):
+        nms = [("lat", "lon"), ("y", "x"), ("level", "station"), ("q", "p")][vi]
+        szs = [(2, 2), (1, 5), (4, 2), (3, 3)][vi]
+        Xv = mk(rng, n=6 + vi, sizes=szs, names=nms, offset=float(vi) - 0.5)
+        Zv = mk(rng, n=6 + vi, sizes=(2 + vi,), names=("w",))
+        DSv = xr.Dataset({"u": Xv, "v": Xv * 2.0 + 1.0, "w": Xv - 1.0})
+        tag = "v%d" % vi
+        single("EOF(n_modes=1)", "DataArray," + tag, lambda: xe.single.EOF(n_modes=1), Xv, dict(n_modes=1), "EOF")
+        single("EOF(n_modes=1, standardize=True)", "Dataset," + tag, lambda: xe.single.EOF(n_modes=1, standardize=True), DSv, dict(n_modes=1, std=True), "EOF")
+        single("EOF(n_modes=1, center=False)", "list," + tag, lambda: xe.single.EOF(n_modes=1, center=False), [Zv, Xv], dict(n_modes=1, center=False), "EOF")
+
     # ---------------- rotator parameters
     base4 = xe.single.EOF(n_modes=4).fit(X, "time")
     for nm, expect in ((2, "result"), (4, "result"), (0, "error"), (-1, "error"), (1, "error"), (False, "error"), ("few", "error"),
@@ -507,7 +520,7 @@ def api_calls(ctx):
             flt = "n_modes-non-numeric"
         calls.append(Call("EOFRotator.fit", "EOF(n_modes=4)", flt + ("" if flt != "n_modes-non-numeric" else ":%r" % (nm,)), expect,
                           (lambda nm=nm: xe.single.EOFRotator(n_modes=nm, max_iter=50).fit(base4)),
-                          "code (rotator_fit_outcome %s 4)" % pv(nm), detail="EOFRotator(n_modes=%r).fit(EOF(n_modes=4))" % (nm,)))
+                          "code (rotator_fit_outcome eof_rotator_check_n_modes %s 4)" % pv(nm), detail="EOFRotator(n_modes=%r).fit(EOF(n_modes=4))" % (nm,)))
 
     # ---------------- cross-set models
     for cname, mkc, extra in (("MCA", lambda **kw: xe.cross.MCA(**dict(dict(n_modes=2, n_pca_modes=4), **kw)), {}),
@@ -570,6 +583,8 @@ def api_calls(ctx):
             defs.append("Definition %s := state_or_empty %s (preprocess_state %s %s %s)." % (s1, c1, c1, coq_input(X), pv("time")))
             defs.append("Definition %s := state_or_empty %s (preprocess_state %s %s %s)." % (s2, c2, c2, coq_input(Y), pv("time")))
             for fault, expect, arg in transform_mutations(X):
+                if fault == "wrong-type:None":
+                    continue            # transform(None, Y) is a valid call: only Y is transformed
                 if fault.startswith("valid:new-samples"):
                     yy = Y.isel(time=slice(0, 5)).assign_coords(time=100 + np.arange(5))
                 else:
@@ -578,7 +593,7 @@ def api_calls(ctx):
                                   "code (cross_transform_outcome faithful_vd faithful_vc %s %s %s %s)" % (s1, s2, coq_input(arg), coq_input(yy)),
                                   detail="%s.transform(<%s>, Y)" % (rname, fault)))
             for fault, expect, arg in transform_mutations(Y):
-                if fault.startswith("valid") or fault.startswith("outside"):
+                if fault.startswith("valid") or fault.startswith("outside") or fault == "wrong-type:None":
                     continue
                 calls.append(Call(rname + ".transform", "Y", fault, expect, (lambda arg=arg: model.transform(X, arg)),
                                   "code (cross_transform_outcome faithful_vd faithful_vc %s %s %s %s)" % (s1, s2, coq_input(X), coq_input(arg)),
@@ -602,8 +617,13 @@ def api_calls(ctx):
             flt = "n_modes-non-numeric:%r" % (nm,)
         calls.append(Call("MCARotator.fit", "MCA(n_modes=3)", flt, expect,
                           (lambda nm=nm: xe.cross.MCARotator(n_modes=nm, max_iter=50).fit(b3)),
-                          "code (rotator_fit_outcome %s 3)" % pv(nm), detail="MCARotator(n_modes=%r).fit(MCA(n_modes=3))" % (nm,)))
+                          "code (rotator_fit_outcome cpcca_rotator_check_n_modes %s 3)" % pv(nm), detail="MCARotator(n_modes=%r).fit(MCA(n_modes=3))" % (nm,)))
     return defs, calls
+
+
+HOW = {"missing-feature-dim": "X.isel({d: 0}, drop=True) for a feature dimension d of the fitted X (dims time x lat x lon)",
+       "extended-feature-coord": "xr.concat([X, X.isel({d: [0]}).assign_coords({d: [X[d].max() + 7]})], d): one more label along feature dimension d",
+       "n_modes-non-numeric": "rotator constructed with n_modes='few' (or None) and fitted on a model with fewer than 10 modes"}
 
 
 def vkey(c):
@@ -619,8 +639,10 @@ def judge(ctx, calls):
                  tag="%s:%s" % (c.site, "fault" if c.expect == "error" else ("valid" if c.expect == "result" else "outside")),
                  sample=dict(kind="api", call=c.detail, fault=c.fault, expected=c.expect, impl=c.impl, observed=c.msg))
         if c.expect == "error" and c.impl == "ok":
+            how = HOW.get(vkey(c).split(":")[-1], "")
             ctx.violation(vkey(c), "%s — fault '%s' is answered with %s instead of an exception" % (c.detail, c.fault, c.msg),
-                          dict(kind="api", site=c.site, layout=c.layout, fault=c.fault, call=c.detail, observed=c.msg, expected="an exception"))
+                          dict(kind="api", site=c.site, layout=c.layout, fault=c.fault, call=c.detail, input=how, observed=c.msg,
+                               expected="an exception"))
         if c.expect is None and c.impl == "ok":
             ctx.extra.setdefault("answered_outside_the_quantifier", []).append("%s :: %s" % (c.name, c.msg))
 
